@@ -352,11 +352,18 @@ def Spec.iter (g : Spec) (fuel : Nat) : Option (List DNA × Bool) :=
 
 /-! ### pg.geno.Sweeping (sweeping.py): propose = `next_dna(last proposed)`, StopIteration at the end -/
 
-/-- `Sweeping._propose`: `none` = an exception other than StopIteration, `some none` =
-StopIteration, `some (some d)` = the proposal. -/
-def sweepPropose (g : Spec) : Option DNA → Option (Option DNA)
-  | none => some (some g.first)
-  | some d => g.next d
+/-- `Sweeping._propose` on the state `last` (`_last_proposed_dna`): `none` = an exception other
+than StopIteration; otherwise the proposal (`none` = StopIteration) and the new state. The cursor
+is only moved when there is a next DNA. -/
+def sweepStep (g : Spec) (last : Option DNA) : Option (Option DNA × Option DNA) :=
+  match (match last with
+         | none => some (some g.first)
+         | some d => g.next d) with
+  | none => none
+  | some none => some (none, last)
+  | some (some d) => some (some d, some d)
+
+def sweepPropose (g : Spec) (last : Option DNA) : Option (Option DNA) := (sweepStep g last).map (·.1)
 
 /-- Up to `fuel` proposals of a fresh Sweeping generator, starting from state `last`. -/
 def sweepRun (g : Spec) : Nat → Option DNA → Option (List DNA × Bool)
@@ -366,6 +373,31 @@ def sweepRun (g : Spec) : Nat → Option DNA → Option (List DNA × Bool)
     | none => none
     | some none => some ([], true)
     | some (some d) => (sweepRun g fuel (some d)).map fun (l, e) => (d :: l, e)
+
+/-- The state after up to `fuel` proposals, and `n` further proposals from there
+(`none` = StopIteration). -/
+def sweepStateAfter (g : Spec) : Nat → Option DNA → Option (Option DNA)
+  | 0, last => some last
+  | fuel + 1, last =>
+    match sweepStep g last with
+    | none => none
+    | some (none, st) => some st
+    | some (some _, st) => sweepStateAfter g fuel st
+
+def sweepMore (g : Spec) : Nat → Option DNA → Option (List (Option DNA))
+  | 0, _ => some []
+  | n + 1, last =>
+    match sweepStep g last with
+    | none => none
+    | some (p, st) => (sweepMore g n st).map (p :: ·)
+
+/-- What the harness observes of a Sweeping generator: the proposals until StopIteration (at most
+`fuel` calls), whether it ended, and — if it ended — four further calls. -/
+def Spec.sweepInfo (g : Spec) (fuel : Nat) : Option (List DNA × Bool × List (Option DNA)) :=
+  match sweepRun g fuel none, sweepStateAfter g fuel none with
+  | some (l, true), some st => (sweepMore g 4 st).map fun after => (l, true, after)
+  | some (l, false), _ => some (l, false, [])
+  | _, _ => none
 
 /-! ### random_dna over a recorded oracle (categorical.py:513-552, space.py:207-226,
 numerical.py:125-131) -/
